@@ -4,10 +4,6 @@
 (* against the sequential program semantics of Circuit.tla.                  *)
 EXTENDS Circuit, StabSem, TraceBase
 
-DecItem(w) == IF w.k = "gen" THEN [k |-> "gen", qs |-> w.qs, g |-> Dec(w.g)]
-              ELSE IF w.k = "map" THEN [k |-> "map", qs |-> w.qs, m |-> DecM(w.m), mi |-> DecM(w.mi)]
-              ELSE [k |-> "mz", qs |-> w.qs]
-DecProg(ws) == [j \in 1..Len(ws) |-> DecItem(ws[j])]
 Prog == DecProg(Rec.prog)
 IsCirc == Rec.op = "circuit" /\ ~Has("exc")
 
